@@ -50,9 +50,9 @@ It(nm, co) == [nm |-> nm, co |-> co]
 \* ---- family A: every coefficient x every format, one or two reactants
 SidesA == {<<It(n, c)>> : n \in Names3, c \in Coefs}
           \cup {<<It(n1, c1), It(n2, c2)>> : n1 \in {nA}, n2 \in {nH2O, nCH3S}, c1 \in Coefs, c2 \in Coefs}
-FamilyA == {[kind |-> "print", r |-> [re |-> s, ts |-> <<>>, pr |-> <<It(nB2, cOne)>>],
-             d |-> d, space |-> sp, spd |-> dPlus, rxd |-> dEq, pad |-> <<0, 0, 0>>]
-            : s \in SidesA, d \in 0..3, sp \in BOOLEAN}
+CaseA(s, d, sp) == [kind |-> "print", r |-> [re |-> s, ts |-> <<>>, pr |-> <<It(nB2, cOne)>>],
+                    d |-> d, space |-> sp, spd |-> dPlus, rxd |-> dEq, pad |-> <<0, 0, 0>>]
+FamilyA(u) == {CaseA(s, d, sp) : s \in SidesA, d \in 0..3, sp \in BOOLEAN}
 
 \* ---- family B: structure (1-3 distinct species, TS, delimiters, blanks), format .2f
 Pattern(p) == IF HasDot(p) THEN <<FxInt(2), cOne, FxInt(3)>> ELSE <<FxInt(2), cOne, cHalf>>
@@ -61,12 +61,26 @@ SeqsB == {<<a>> : a \in Names6}
          \cup {s \in {<<a, b, c>> : a \in {nA, nCstar}, b \in Names6, c \in Names6}
                 : s[1] # s[2] /\ s[1] # s[3] /\ s[2] # s[3]}
 SideB(ns, p) == [i \in 1..Len(ns) |-> It(ns[i], Pattern(p)[i])]
-FamilyB == {[kind |-> "print",
-             r |-> [re |-> SideB(ns, p), ts |-> ts,
-                    pr |-> <<It(nH2O, IF HasDot(p) THEN FxInt(3) ELSE cThreeHalves), It(nB2, cOne)>>],
-             d |-> 2, space |-> sp, spd |-> p[1], rxd |-> p[2], pad |-> pad]
-            : ns \in SeqsB, ts \in {<<>>, <<It(nATS, cOne)>>}, p \in DelimPairs, sp \in BOOLEAN,
-              pad \in Pads}
+TSesB == {<<>>, <<It(nATS, cOne)>>}
+CaseB(ns, ts, p, sp, pad) ==
+   [kind |-> "print",
+    r |-> [re |-> SideB(ns, p), ts |-> ts,
+           pr |-> <<It(nH2O, IF HasDot(p) THEN FxInt(3) ELSE cThreeHalves), It(nB2, cOne)>>],
+    d |-> 2, space |-> sp, spd |-> p[1], rxd |-> p[2], pad |-> pad]
+FamilyB(u) == {CaseB(ns, ts, p, sp, pad) : ns \in SeqsB, ts \in TSesB, p \in DelimPairs, sp \in BOOLEAN,
+                                        pad \in Pads}
+
+\* ---- family E (thorough): four species on both sides, every order of 4 of the 6 names
+SeqsE == {s \in {<<a, b, c, d>> : a \in Names6, b \in Names6, c \in Names6, d \in Names6}
+          : Cardinality({s[1], s[2], s[3], s[4]}) = 4}
+PatternE == <<FxInt(2), cOne, cHalf, cThreeHalves>>
+CaseE(ns, ts, p, sp) ==
+   [kind |-> "print",
+    r |-> [re |-> [i \in 1..4 |-> It(ns[i], PatternE[i])], ts |-> ts,
+           pr |-> [i \in 1..4 |-> It(ns[5 - i], PatternE[i])]],
+    d |-> 2, space |-> sp, spd |-> p[1], rxd |-> p[2], pad |-> <<1, 0, 1>>]
+PairsE == {p \in DelimPairs : ~HasDot(p)}
+FamilyE(u) == {CaseE(ns, ts, p, sp) : ns \in SeqsE, ts \in TSesB, p \in PairsE, sp \in BOOLEAN}
 
 \* ---- family C: hand-written text (integer / decimal / omitted coefficients, repeats)
 Tok(num, gap, nm) == [num |-> num, gap |-> gap, nm |-> nm]
@@ -78,17 +92,22 @@ ToksC == {Tok(n, g, nm) : n \in NumsC, g \in 0..1, nm \in {nA, nH2O}}
 ToksC3 == {Tok(n, 0, nm) : n \in {<<>>, num2, num05}, nm \in {nA, nH2O}}
 SidesC == {<<t>> : t \in ToksC} \cup {<<t, u>> : t \in ToksC, u \in ToksC}
           \cup {<<t, u, v>> : t \in ToksC3, u \in ToksC3, v \in ToksC3}
-FamilyC == {[kind |-> "hand", toks |-> [re |-> s, ts |-> ts, pr |-> <<Tok(<<>>, 0, nB2)>>],
-             spd |-> p[1], rxd |-> p[2], pad |-> pad]
-            : s \in SidesC, ts \in {<<>>, <<Tok(<<>>, 0, nATS)>>},
-              p \in {<<dPlus, dEq>>, <<dSemi, dArrow>>}, pad \in {<<0, 0, 0>>, <<2, 1, 1>>}}
+TSesC == {<<>>, <<Tok(<<>>, 0, nATS)>>}
+CaseC(s, ts, p, pad) == [kind |-> "hand", toks |-> [re |-> s, ts |-> ts, pr |-> <<Tok(<<>>, 0, nB2)>>],
+                         spd |-> p[1], rxd |-> p[2], pad |-> pad]
+\* quick: each delimiter pair with one blank pattern; full: both patterns with both pairs
+LayoutsC(full) == IF full THEN {<<dPlus, dEq>>, <<dSemi, dArrow>>} \X {<<0, 0, 0>>, <<2, 1, 1>>}
+                  ELSE {<<<<dPlus, dEq>>, <<0, 0, 0>>>>, <<<<dSemi, dArrow>>, <<2, 1, 1>>>>}
+FamilyC(full) == {CaseC(s, ts, lay[1], lay[2]) : s \in SidesC, ts \in TSesC, lay \in LayoutsC(full)}
 \* RING style '.' / '>>' with integer coefficients only
 SidesD == {<<t>> : t \in {Tok(n, g, nm) : n \in NumsInt, g \in 0..1, nm \in {nA, nH2O}}}
           \cup {<<Tok(n1, 0, nm1), Tok(n2, 0, nm2)>> : n1 \in NumsInt, n2 \in NumsInt,
                                                       nm1 \in {nA, nH2O}, nm2 \in {nA, nH2O}}
-FamilyD == {[kind |-> "hand", toks |-> [re |-> s, ts |-> ts, pr |-> <<Tok(num2, 0, nB2), Tok(<<>>, 0, nCstar)>>],
-             spd |-> dDot, rxd |-> dGG, pad |-> pad]
-            : s \in SidesD, ts \in {<<>>, <<Tok(<<>>, 0, nATS)>>}, pad \in {<<0, 0, 0>>, <<1, 1, 0>>}}
+CaseD(s, ts, pad) == [kind |-> "hand",
+                      toks |-> [re |-> s, ts |-> ts, pr |-> <<Tok(num2, 0, nB2), Tok(<<>>, 0, nCstar)>>],
+                      spd |-> dDot, rxd |-> dGG, pad |-> pad]
+PadsD == {<<0, 0, 0>>, <<1, 1, 0>>}
+FamilyD(u) == {CaseD(s, ts, pad) : s \in SidesD, ts \in TSesC, pad \in PadsD}
 
 \* ---- text of a case
 HandStates(t) == LET side(s) == [i \in 1..Len(s) |-> TokenText(s[i])]
